@@ -352,3 +352,26 @@ def bounded(opts):
                 "re-partitioning with the reported centres; id-set and centre-distance guards", evaluations=2 * 4 * 5 + 2,
                 distinct_nontrivial=2 * 4 * 5 + 2, violations=[dict(id="bounded:metadata", detail=f) for f in r["failed"]], samples=["centres at ra 5,35,15,25 deg"],
                 wall_s=round(time.time() - t0, 2), note="real library; labelled bounded, not counted as proved")
+
+
+# every participating catalog is checked against the reference before anything is linked (the C01 unit on
+# PatchLinkage.from_catalogs: "all other catalogs checked against the reference", extents cover every catalog)
+def _register_shared():
+    from . import C01 as _C01
+    unit(P, "from_catalogs.consistency_check_covers_every_catalog", fuc=["yaw.correlation.measurements:PatchLinkage.from_catalogs"],
+         cases=[dict(ncat=n) for n in (2, 3)], trusted=["metric axioms", "itertools.compress"])(_C01.u_links)
+
+
+_register_shared()
+
+
+
+# with given centres the records of patch i are the ones nearest to centre i - also when the input carries a patch-id column
+# (the C02 unit on split_into_patches, run here as well)
+def _register_shared_split():
+    from . import C02 as _C02
+    unit(P, "split_into_patches", fuc=["yaw.catalog.catalog:split_into_patches"],
+         cases=[dict(mode=m, w=False, z=False) for m in ("ids", "centres", "centres+ids")])(_C02.u_split)
+
+
+_register_shared_split()
